@@ -1,13 +1,596 @@
-// Package c19 is the harness for property C19 (runs the real kapacitor code, prints op lines).
+// Package c19 is the harness for property C19 (data crosses the UDF boundary unchanged; safe framing).
+//
+// Two kinds of cases, both on the REAL code of /repo:
+//
+//   - frame cases: agent.WriteMessage on a recording writer (the two Write calls per message are the observation),
+//     then agent.ReadMessage repeatedly over a reader that delivers the byte stream in the generated chunks
+//     (1-byte reads, splits inside the varint, empty reads, the last chunk together with io.EOF, truncation).
+//   - echo cases: a real udf.Server connected by two io.Pipes to a real agent.Agent whose Handler echoes every
+//     Begin/Point/End and serves snapshot/restore; both directions are read through chunk-limiting readers;
+//     points, buffered and unbuffered batches are written to Server.In(), Snapshot()/Restore() calls and keepalives
+//     are interleaved, and everything that comes out of Server.Out() is the observation.
 package c19
 
 import (
+	"bufio"
 	"fmt"
+	"io"
 	"os"
+	"strconv"
+	"strings"
+	"sync"
+	"time"
+
+	"github.com/influxdata/kapacitor/edge"
+	"github.com/influxdata/kapacitor/keyvalue"
+	"github.com/influxdata/kapacitor/udf"
+	"github.com/influxdata/kapacitor/udf/agent"
+
+	"verifharness/kit"
 )
 
-// Run is replaced by the property's harness.
+// ---------------------------------------------------------------------------------------------
+// frame cases
+
+type recWriter struct{ writes [][]byte }
+
+func (w *recWriter) Write(p []byte) (int, error) {
+	w.writes = append(w.writes, append([]byte(nil), p...))
+	return len(p), nil
+}
+
+// chunkReader delivers a fixed byte stream that was pre-split into chunks: Read returns at most the rest of the
+// current chunk (an empty chunk is an empty read), ReadByte takes one byte of the first non-empty chunk.
+// With eofWithData the read that exhausts the stream returns its bytes together with io.EOF (allowed by io.Reader).
+type chunkReader struct {
+	chunks      [][]byte
+	eofWithData bool
+	consumed    int
+}
+
+func (r *chunkReader) ReadByte() (byte, error) {
+	for len(r.chunks) > 0 && len(r.chunks[0]) == 0 {
+		r.chunks = r.chunks[1:]
+	}
+	if len(r.chunks) == 0 {
+		return 0, io.EOF
+	}
+	b := r.chunks[0][0]
+	r.chunks[0] = r.chunks[0][1:]
+	r.consumed++
+	return b, nil
+}
+
+func (r *chunkReader) Read(p []byte) (int, error) {
+	if len(r.chunks) == 0 {
+		return 0, io.EOF
+	}
+	if len(p) == 0 {
+		return 0, nil
+	}
+	c := r.chunks[0]
+	n := copy(p, c)
+	if n == len(c) {
+		r.chunks = r.chunks[1:]
+	} else {
+		r.chunks[0] = c[n:]
+	}
+	r.consumed += n
+	if r.eofWithData && len(r.chunks) == 0 && n > 0 {
+		return n, io.EOF
+	}
+	return n, nil
+}
+
+func parsePattern(s string) []int {
+	var out []int
+	for _, x := range splitOrEmpty(s, ",") {
+		out = append(out, int(atoi(x)))
+	}
+	if len(out) == 0 {
+		out = []int{1 << 30}
+	}
+	return out
+}
+
+// splitChunks cuts data by the cyclic pattern (0 = an empty chunk; a pattern of zeros only is padded by a 1).
+func splitChunks(data []byte, pat []int) [][]byte {
+	allZero := true
+	for _, p := range pat {
+		if p > 0 {
+			allZero = false
+		}
+	}
+	if allZero {
+		pat = append(append([]int(nil), pat...), 1)
+	}
+	var out [][]byte
+	i := 0
+	for len(data) > 0 {
+		k := pat[i%len(pat)]
+		i++
+		if k > len(data) {
+			k = len(data)
+		}
+		out = append(out, data[:k])
+		data = data[k:]
+	}
+	return out
+}
+
+type frameState struct {
+	rw    recWriter
+	isReq bool
+	n     int
+}
+
+func (fs *frameState) write(tok string) string {
+	isReq, req, resp := parseWire(tok)
+	fs.isReq = isReq
+	before := len(fs.rw.writes)
+	var err error
+	if isReq {
+		err = agent.WriteMessage(req, &fs.rw)
+	} else {
+		err = agent.WriteMessage(resp, &fs.rw)
+	}
+	if err != nil {
+		return "err"
+	}
+	ws := fs.rw.writes[before:]
+	fs.n++
+	if len(ws) != 2 {
+		return fmt.Sprintf("writes:%d", len(ws))
+	}
+	return hexs(ws[0]) + " " + hexs(ws[1])
+}
+
+func (fs *frameState) read(pattern, eofMode, cut string) string {
+	var stream []byte
+	for _, w := range fs.rw.writes {
+		stream = append(stream, w...)
+	}
+	if cut != "-" {
+		c := int(atoi(cut))
+		if c < len(stream) {
+			stream = stream[:c]
+		}
+	}
+	cr := &chunkReader{chunks: splitChunks(stream, parsePattern(pattern)), eofWithData: eofMode == "1"}
+	var buf []byte
+	var res []string
+	request := &agent.Request{} // agent.readLoop re-uses one Request, Server.readResponse allocates each time
+	for i := 0; i < fs.n+2; i++ {
+		var err error
+		var desc string
+		if fs.isReq {
+			err = agent.ReadMessage(&buf, cr, request)
+			if err == nil {
+				desc = renderRequest(request)
+			}
+		} else {
+			response := new(agent.Response)
+			err = agent.ReadMessage(&buf, cr, response)
+			if err == nil {
+				desc = renderResponse(response)
+			}
+		}
+		if err == io.EOF {
+			res = append(res, fmt.Sprintf("eof:%d", cr.consumed))
+			break
+		}
+		if err != nil {
+			res = append(res, fmt.Sprintf("err:%d", cr.consumed))
+			break
+		}
+		res = append(res, fmt.Sprintf("ok:%d:%s", cr.consumed, desc))
+	}
+	return strings.Join(res, " ")
+}
+
+// ---------------------------------------------------------------------------------------------
+// echo cases
+
+type nopDiag struct {
+	mu sync.Mutex
+	n  int
+}
+
+func (d *nopDiag) Error(msg string, err error, ctx ...keyvalue.T) {
+	d.mu.Lock()
+	d.n++
+	d.mu.Unlock()
+}
+func (d *nopDiag) UDFLog(msg string) {}
+
+// echoHandler is the well-behaved peer: it sends back every data message it receives and keeps snapshot bytes.
+type echoHandler struct {
+	a        *agent.Agent
+	mu       sync.Mutex
+	snap     []byte
+	restored []byte
+}
+
+func (h *echoHandler) Info() (*agent.InfoResponse, error) {
+	return &agent.InfoResponse{Wants: agent.EdgeType_STREAM, Provides: agent.EdgeType_STREAM, Options: map[string]*agent.OptionInfo{}}, nil
+}
+func (h *echoHandler) Init(*agent.InitRequest) (*agent.InitResponse, error) {
+	return &agent.InitResponse{Success: true}, nil
+}
+func (h *echoHandler) Snapshot() (*agent.SnapshotResponse, error) {
+	h.mu.Lock()
+	defer h.mu.Unlock()
+	return &agent.SnapshotResponse{Snapshot: h.snap}, nil
+}
+func (h *echoHandler) Restore(r *agent.RestoreRequest) (*agent.RestoreResponse, error) {
+	h.mu.Lock()
+	h.restored = append([]byte(nil), r.Snapshot...)
+	h.mu.Unlock()
+	return &agent.RestoreResponse{Success: true}, nil
+}
+func (h *echoHandler) BeginBatch(b *agent.BeginBatch) error {
+	h.a.Responses <- &agent.Response{Message: &agent.Response_Begin{Begin: b}}
+	return nil
+}
+func (h *echoHandler) Point(p *agent.Point) error {
+	h.a.Responses <- &agent.Response{Message: &agent.Response_Point{Point: p}}
+	return nil
+}
+func (h *echoHandler) EndBatch(e *agent.EndBatch) error {
+	h.a.Responses <- &agent.Response{Message: &agent.Response_End{End: e}}
+	return nil
+}
+func (h *echoHandler) Stop() { close(h.a.Responses) }
+
+// limitReader truncates every Read of the underlying pipe to the next size of the cyclic pattern.
+type limitReader struct {
+	r   io.ReadCloser
+	pat []int
+	i   int
+	tee *[]byte
+	mu  *sync.Mutex
+}
+
+func (l *limitReader) Read(p []byte) (int, error) {
+	k := l.pat[l.i%len(l.pat)]
+	l.i++
+	if k == 0 {
+		return 0, nil
+	}
+	if k < len(p) {
+		p = p[:k]
+	}
+	n, err := l.r.Read(p)
+	if l.tee != nil && n > 0 {
+		l.mu.Lock()
+		*l.tee = append(*l.tee, p[:n]...)
+		l.mu.Unlock()
+	}
+	return n, err
+}
+func (l *limitReader) Close() error { return l.r.Close() }
+
+// directBRR is an agent.ByteReadReader without bufio in between: ReadMessage sees the chunking as it is.
+type directBRR struct{ r io.Reader }
+
+func (d directBRR) Read(p []byte) (int, error) { return d.r.Read(p) }
+func (d directBRR) ReadByte() (byte, error) {
+	var b [1]byte
+	for {
+		n, err := d.r.Read(b[:])
+		if n == 1 {
+			return b[0], nil
+		}
+		if err != nil {
+			return 0, err
+		}
+	}
+}
+
+func noZeros(p []int) []int {
+	// bufio gives up after 100 empty reads in a row; patterns keep empty reads isolated
+	out := make([]int, 0, len(p))
+	for i, x := range p {
+		if x == 0 && (i == 0 || p[i-1] == 0) {
+			x = 1
+		}
+		out = append(out, x)
+	}
+	if out[len(out)-1] == 0 && out[0] == 0 {
+		out[0] = 1
+	}
+	return out
+}
+
+type session struct {
+	srv      *udf.Server
+	ag       *agent.Agent
+	h        *echoHandler
+	diag     *nopDiag
+	aborted  chan struct{}
+	collDone chan struct{}
+	outs     []string
+	reqTee   []byte
+	teeMu    sync.Mutex
+	kaMs     int
+	pending  []func() // joins of concurrent snapshot calls
+}
+
+func newSession(reqPat, respPat, bufioMode, kaMs string) (*session, string) {
+	s := &session{diag: &nopDiag{}, aborted: make(chan struct{}), collDone: make(chan struct{})}
+	s.kaMs = int(atoi(kaMs))
+	r1, w1 := io.Pipe() // server -> agent
+	r2, w2 := io.Pipe() // agent -> server
+	agentIn := &limitReader{r: r1, pat: noZeros(parsePattern(reqPat)), tee: &s.reqTee, mu: &s.teeMu}
+	serverInRaw := &limitReader{r: r2, pat: noZeros(parsePattern(respPat))}
+	var serverIn agent.ByteReadReader
+	if bufioMode == "1" {
+		serverIn = bufio.NewReader(serverInRaw)
+	} else {
+		serverIn = directBRR{serverInRaw}
+	}
+	s.ag = agent.New(agentIn, w2)
+	s.h = &echoHandler{a: s.ag}
+	s.ag.Handler = s.h
+	var once sync.Once
+	s.srv = udf.NewServer("task", "node", serverIn, w1, s.diag, time.Duration(s.kaMs)*time.Millisecond,
+		func() { once.Do(func() { close(s.aborted) }) }, func() {})
+	if err := s.ag.Start(); err != nil {
+		return s, "err:agent"
+	}
+	if err := s.srv.Start(); err != nil {
+		return s, "err:start"
+	}
+	go func() {
+		defer close(s.collDone)
+		for m := range s.srv.Out() {
+			s.outs = append(s.outs, renderOut(m))
+		}
+	}()
+	info, err := s.srv.Info()
+	if err != nil {
+		return s, "err:info"
+	}
+	if err := s.srv.Init(nil); err != nil {
+		return s, "err:init"
+	}
+	return s, fmt.Sprintf("ok:%d:%d", int(info.Wants), int(info.Provides))
+}
+
+func (s *session) send(m edge.Message) bool {
+	select {
+	case s.srv.In() <- m:
+		return true
+	case <-s.aborted:
+		return false
+	}
+}
+
+func (s *session) snapshot(b []byte) string {
+	s.h.mu.Lock()
+	s.h.snap = b
+	s.h.mu.Unlock()
+	got, err := s.srv.Snapshot()
+	if err != nil {
+		return "err"
+	}
+	return hexs(got)
+}
+
+func (s *session) finish() string {
+	for _, j := range s.pending {
+		j()
+	}
+	s.pending = nil
+	err := s.srv.Stop()
+	<-s.collDone
+	s.ag.Wait()
+	status := "ok"
+	if err != nil {
+		status = "err"
+	}
+	select {
+	case <-s.aborted:
+		status = "aborted"
+	default:
+	}
+	// how many keepalive requests crossed the wire (informational: depends on timing)
+	ka := 0
+	br := bufio.NewReader(strings.NewReader(string(s.reqTee)))
+	var buf []byte
+	for {
+		req := &agent.Request{}
+		if err := agent.ReadMessage(&buf, br, req); err != nil {
+			break
+		}
+		if _, ok := req.Message.(*agent.Request_Keepalive); ok {
+			ka++
+		}
+	}
+	kaTok := "ka=0"
+	if ka > 0 {
+		kaTok = "ka=1"
+	}
+	s.diag.mu.Lock()
+	nd := s.diag.n
+	s.diag.mu.Unlock()
+	return fmt.Sprintf("%s %s diag=%d %s", status, kaTok, nd, joinOrEmpty(s.outs, " "))
+}
+
+// ---------------------------------------------------------------------------------------------
+
+// execCase runs the op lines of one case and returns them with the observations appended.
+func execCase(ops []string) (out []string) {
+	var fs frameState
+	var s *session
+	finished := false
+	wd := time.AfterFunc(60*time.Second, func() {
+		fmt.Fprintln(os.Stderr, "c19: case did not finish within 60s (deadlock in the real code?)")
+		for _, l := range out {
+			fmt.Fprintln(os.Stderr, "   ", l)
+		}
+		os.Exit(4)
+	})
+	defer wd.Stop()
+	guard := func(line string, f func() string) {
+		idx := len(out)
+		out = append(out, line)
+		defer func() {
+			if r := recover(); r != nil {
+				out[idx] = line + " => panic"
+			}
+		}()
+		obs := f()
+		if obs != "" {
+			out[idx] = line + " => " + obs
+		}
+	}
+	for _, raw := range ops {
+		line := raw
+		if i := strings.Index(line, " => "); i >= 0 {
+			line = line[:i]
+		}
+		t := strings.Fields(line)
+		if len(t) == 0 {
+			continue
+		}
+		switch t[0] {
+		case "w":
+			guard(line, func() string { return fs.write(t[1]) })
+		case "rd":
+			guard(line, func() string { return fs.read(t[1], t[2], t[3]) })
+		case "cfg":
+			guard(line, func() string {
+				var obs string
+				s, obs = newSession(t[1], t[2], t[3], t[4])
+				return obs
+			})
+		case "pt":
+			guard(line, func() string {
+				m := parseInPoint(t[1]).message()
+				g := kit.Esc(string(m.GroupID()))
+				if !s.send(m) {
+					return g + " aborted"
+				}
+				return g
+			})
+		case "bb", "ub":
+			guard(line, func() string {
+				b := parseInBatch(t[1])
+				bg := b.begin()
+				obs := kit.Esc(string(bg.GroupID())) + " " + renderDims(bg.Dimensions().TagNames) + " " + renderTags(bg.Tags())
+				ok := true
+				if t[0] == "bb" {
+					ok = s.send(edge.NewBufferedBatchMessage(bg, b.points(), edge.NewEndBatchMessage()))
+				} else {
+					ok = s.send(bg)
+					for _, p := range b.points() {
+						ok = ok && s.send(p)
+					}
+					ok = ok && s.send(edge.NewEndBatchMessage())
+				}
+				if !ok {
+					return obs + " aborted"
+				}
+				return obs
+			})
+		case "snap":
+			guard(line, func() string { return s.snapshot(unhex(t[1])) })
+		case "snapc":
+			// Snapshot() from another goroutine while the following data ops run; joined before the next
+			// snapshot/restore op and before `out`.
+			idx := len(out)
+			out = append(out, line)
+			done := make(chan string, 1)
+			b := unhex(t[1])
+			go func() {
+				defer func() {
+					if r := recover(); r != nil {
+						done <- "panic"
+					}
+				}()
+				done <- s.snapshot(b)
+			}()
+			l := line
+			s.pending = append(s.pending, func() { out[idx] = l + " => " + <-done })
+		case "join":
+			for _, j := range s.pending {
+				j()
+			}
+			s.pending = nil
+			out = append(out, line)
+		case "restore":
+			guard(line, func() string {
+				err := s.srv.Restore(unhex(t[1]))
+				s.h.mu.Lock()
+				got := hexs(s.h.restored)
+				s.h.mu.Unlock()
+				if err != nil {
+					return got + " err"
+				}
+				return got + " ok"
+			})
+		case "sleep":
+			ms, _ := strconv.Atoi(t[1])
+			time.Sleep(time.Duration(ms) * time.Millisecond)
+			out = append(out, line)
+		case "out":
+			guard(line, func() string { finished = true; return s.finish() })
+		default:
+			out = append(out, line)
+		}
+	}
+	if s != nil && !finished {
+		s.finish()
+	}
+	return out
+}
+
+func emit(o *kit.Out, id string, lines []string) {
+	o.Line("case", id)
+	for _, l := range lines {
+		o.Line(l)
+	}
+	o.Line("end")
+	o.Flush()
+}
+
+// Run: `vh-c19 -seed S -n N [-tier thorough]` generates; `vh-c19 -ops file` re-executes the cases of a file.
 func Run(args []string) int {
-	fmt.Fprintln(os.Stderr, "c19: harness not implemented yet")
-	return 3
+	f := kit.ParseFlags(args)
+	o := kit.NewOut()
+	defer o.Flush()
+	if f.Ops != "" {
+		lines, err := kit.ReadLines(f.Ops)
+		if err != nil {
+			fmt.Fprintln(os.Stderr, err)
+			return 2
+		}
+		var cur []string
+		id := ""
+		for _, l := range lines {
+			t := strings.Fields(l)
+			switch {
+			case len(t) == 2 && t[0] == "case":
+				id, cur = t[1], nil
+			case len(t) == 1 && t[0] == "end":
+				emit(o, id, execCase(cur))
+			default:
+				cur = append(cur, l)
+			}
+		}
+		return 0
+	}
+	r := kit.NewRand(f.Seed)
+	thorough := f.Tier == "thorough"
+	for i := 0; i < f.N; i++ {
+		g := r.Fork()
+		switch {
+		case i%3 == 0:
+			emit(o, fmt.Sprintf("f%d", i), execCase(genFrameCase(g, thorough, i)))
+		default:
+			emit(o, fmt.Sprintf("e%d", i), execCase(genEchoCase(g, thorough, i)))
+		}
+	}
+	return 0
 }
